@@ -71,6 +71,19 @@ pub fn run(ctx: &mut Ctx) {
         for _ in 0..3 {
             sp.push(f1 as f64 / (nst as f64 * rng.uniform(1.02, 1.5)));
         }
+        // speeds whose quotient F1/s lies within a few ulps of a rounding tie k + 0.5 (on either
+        // side of it, and on it): the law is about round(F1/s), not about round(F1 * (1/s))
+        for _ in 0..4 {
+            let k = rng.range(nst, (4 * nst).max(nst + 8)) as f64 + 0.5;
+            let s0 = f1 as f64 / k;
+            let j = rng.irange(-3, 3);
+            let s = f64::from_bits((s0.to_bits() as i64 + j) as u64);
+            if s > 0.0 && s.is_finite() {
+                sp.push(s);
+            }
+            // two-decimal speeds, as a user would type them
+            sp.push((rng.range(10, 999) as f64) / 100.0);
+        }
         for s in sp {
             let d = est.create(s);
             let total: usize = d.iter().sum();
@@ -119,8 +132,19 @@ pub fn run(ctx: &mut Ctx) {
     let env = Env::new(ctx);
     let bundled = env.load_bundled();
     let n = ctx.n(120, 3000);
-    ctx.run_cases("end-to-end", n, false, |ctx, rng, _| {
-        let labels = env.corpus.random_utterance(rng, 1, 12);
+    ctx.run_cases("end-to-end", n, false, |ctx, rng, idx| {
+        // (one case in three: pause-dominated utterances of 1..2 labels — long states, the only
+        // utterances on which speeds above 10 are not already on the one-frame-per-state floor)
+        let pauses = idx % 3 == 2;
+        let labels = if pauses {
+            let mut v = vec![env.corpus.silence_label(rng)];
+            if rng.chance(0.5) {
+                v.push(if rng.chance(0.5) { env.corpus.silence_label(rng) } else { rng.pick(&env.corpus.labels).clone() });
+            }
+            v
+        } else {
+            env.corpus.random_utterance(rng, 1, 12)
+        };
         let nst = labels.len() * bundled.voices.global_metadata().num_states;
         // reference F1 from the file
         let mut f1 = 0usize;
@@ -146,6 +170,16 @@ pub fn run(ctx: &mut Ctx) {
         let mut prev: Option<(f64, usize)> = None;
         let mut grid: Vec<f64> = (0..5).map(|_| rng.log_uniform(0.25, 4.0)).collect();
         grid.push(1.0);
+        if pauses {
+            // the whole range of the quantifier, and two-decimal speeds near rounding ties
+            grid.push(rng.log_uniform(0.1, 0.25));
+            grid.push(rng.uniform(10.0, 50.0));
+            grid.push(rng.uniform(10.0, 16.0));
+            grid.push(50.0);
+            grid.push(rng.range(1000, 2500) as f64 / 100.0);
+        } else {
+            grid.push(rng.range(10, 999) as f64 / 100.0);
+        }
         grid.sort_by(|a, b| a.total_cmp(b));
         for s in grid {
             let mut e = bundled.clone();
@@ -158,6 +192,9 @@ pub fn run(ctx: &mut Ctx) {
                 }
             };
             let total: usize = run.durations.iter().sum();
+            if e.condition.get_speed() != s {
+                ctx.violation("speed-not-stored", J::obj().set("set", s).set("get", e.condition.get_speed()));
+            }
             let (want, a) = total_at_speed(f1, s, nst);
             let wave_len = e.synthesize(labels.clone()).map(|w| w.len()).unwrap_or(usize::MAX);
             if wave_len != total * e.condition.get_fperiod() {
